@@ -329,6 +329,11 @@ def execute(case):
         if not isinstance(out, di.ListOfDicts):
             res.violate(f"{name}:not-a-ListOfDicts", f"step {step} {op} returned {type(out)}")
             return res.dict()
+        if op in ("add", "add_self", "mul", "rmul", "copy", "extend", "extend_self") and out is data:
+            # list + list, list * n and list.copy() make a new list even when an operand is empty or n is 1: the operand is not the result,
+            # so that growing the result in place (+=, slice assignment) leaves the operand alone
+            res.violate(f"{name}:returned-its-operand", f"step {step} {op}({arg!r}) returned the very list it was applied to; chain {chain}")
+            return res.dict()
         got = [dict(x) for x in list.__iter__(out)]
         if got == exp and op == "select" and [list(g) for g in got] != [list(e) for e in exp]:
             res.violate("select:keys-not-in-requested-order", f"step {step} select({arg!r}): key order {[list(g) for g in got][:3]} expected {[list(e) for e in exp][:3]}")
